@@ -256,6 +256,37 @@ func init() {
 	plugins["privileges"] = pluginPrivileges
 	plugins["handler-contract"] = pluginHandlerContract
 	plugins["sites"] = pluginSites
+	plugins["passwords"] = pluginPasswords
+}
+
+// pluginPasswords (C15): passwords are stored only as salted hashes: in the given function every
+// store to a field named Password writes the result of hotline.HashAndSalt (def-use on the SSA of
+// the current tree), on every path.
+func pluginPasswords(r *Run, it Item) {
+	key := it.Func
+	fr := r.Eng.verifyFuncOpts(key, RunOpts{Trace: true, Depth: 3, Over: handlerOver(), Opaque: handlerOpaque, Setup: handlerSetup})
+	if fr.Err != "" {
+		r.Errors = append(r.Errors, key+": "+fr.Err)
+		return
+	}
+	r.Funcs = append(r.Funcs, key)
+	vc := fr.VC
+	vc.obls = nil
+	n := 0
+	for _, ss := range fr.Trace.stores {
+		_, field := fieldOrigin(ss.Instr.Addr)
+		if field != "Password" {
+			continue
+		}
+		n++
+		ok := "false"
+		if c, isCall := ss.Instr.Val.(*ssa.Call); isCall && canonName(calleeOf(&c.Call)) == "hotline.HashAndSalt" {
+			ok = "true"
+		}
+		vc.oblige(fmt.Sprintf("%s#password:stored-value-is-a-hash.%d", key, n), "password", ss.Reach, ok, r.Eng.pos(ss.Instr.Pos()))
+	}
+	vc.cover(key+"#cover:exit", fr.OutReach, "")
+	r.pending = append(r.pending, pendingVC{vc, r.Prop + "_pw_" + key})
 }
 
 // ---- stream models used by the call-site plug-in (assumed contracts from package io's documentation)
